@@ -30,6 +30,8 @@ type Property struct {
 	Run func(c *Ctx)
 	// Race: the workers are run from the -race build of the binary.
 	Race bool
+	// RaceFor, when set, decides per shard whether the -race build is used.
+	RaceFor func(tier string, shard int) bool
 	// TimeoutS is the wall-clock watchdog per worker (never a verdict).
 	TimeoutS func(tier string) int
 	// CrashSignature: when a worker dies, the parent reports a violation with
@@ -151,7 +153,14 @@ func RunParent(propID, tier string, seed int64, rootDir, only string) int {
 			if only != "" {
 				args = append(args, "--only", only)
 			}
-			cmd := exec.Command(self, args...)
+			bin := self
+			if p.RaceFor != nil {
+				bin = filepath.Join(binDir, "vcheck")
+				if p.RaceFor(tier, i) {
+					bin = filepath.Join(binDir, "vcheck-race")
+				}
+			}
+			cmd := exec.Command(bin, args...)
 			cmd.Dir = wdir
 			// the library prints warnings with fmt.Printf: keep them away from our stdout
 			devnull, _ := os.OpenFile(os.DevNull, os.O_WRONLY, 0)
